@@ -47,10 +47,11 @@ struct Gate {
   int connects = 0;
 };
 
-struct gate_sender {
+template <bool SendsValue>
+struct basic_gate_sender {
   Gate* g;
   template <template <class...> class Variant, template <class...> class Tuple>
-  using value_types = Variant<Tuple<long>>;
+  using value_types = std::conditional_t<SendsValue, Variant<Tuple<long>>, Variant<>>;
   template <template <class...> class Variant>
   using error_types = Variant<std::exception_ptr>;
   static constexpr bool sends_done = true;
@@ -132,8 +133,10 @@ struct gate_sender {
       int ch = why == 2 ? CH_DONE : gg->outcome;
       long payload = gg->payload;
       { usim::np_scope np; gg->delivered = ch; KIT_TRACE("gate %d completes with %s (why %d)", gg->id, ch_name(ch), why); }
-      if (ch == CH_VALUE) unifex::set_value(std::move(self->r), (long)payload);
-      else if (ch == CH_ERROR) unifex::set_error(std::move(self->r), std::make_exception_ptr(gate_error{payload}));
+      if (ch == CH_VALUE) {
+        if constexpr (SendsValue) unifex::set_value(std::move(self->r), (long)payload);
+        else std::terminate();  // a no-value gate is never scripted with a value outcome
+      } else if (ch == CH_ERROR) unifex::set_error(std::move(self->r), std::make_exception_ptr(gate_error{payload}));
       else unifex::set_done(std::move(self->r));
       { usim::np_scope np; gg->complete_end = seq(); }
       return true;
@@ -142,6 +145,9 @@ struct gate_sender {
   template <class R>
   op<unifex::remove_cvref_t<R>> connect(R&& r) const { return op<unifex::remove_cvref_t<R>>{g, unifex::remove_cvref_t<R>((R &&) r)}; }
 };
+
+using gate_sender = basic_gate_sender<true>;
+using gate_done_sender = basic_gate_sender<false>;  // cleanup()-style senders: done or error only
 
 inline bool gate_open(Gate* g) { return g->complete_fn ? g->complete_fn(g, 1) : false; }
 
